@@ -77,7 +77,8 @@ Not asserted (statement silent): that a cache hit occurs for equal keys (only co
 vacuous); what happens to values stored while caching was off; aliasing between returned arrays and the
 object's internal caches; behaviour for inadmissible arguments (negative compositions, T outside 300-2000 K).
 Relative differences are taken per returned array relative to that array's own scale; a scalar driving force
-uses max(|dg|, 1 J/mol) as its scale (1 J/mol is the library's own 'small' energy offset gOffset).
+uses max(|dg|, 1 J/mol) as its scale (1 J/mol is the library's own 'small' energy offset gOffset); gba uses max(|gba|, 1e-6)
+(for stoichiometric precipitates it is 0 or rounding residue of 1e-14).
 
 Defects found on the unchanged tree (reproducers / diffs in /verif/proposed_fixes/C09-*): binary interfacial
 composition adds gOffset to the caller's array; cache cannot be switched off; int32 key overflow for 7-8 digits;
@@ -568,7 +569,13 @@ def tol_class(q, case):
     return 'a'
 
 
+GBA_FLOOR = 1e-6        # gba (ratio of free-energy curvatures, O(0.1..100) for solution phases) multiplies a composition difference
+                        # <= 1; for stoichiometric precipitates it is either exactly 0 (rank test) or rounding residue ~1e-14
+
+
 def _floor(field):
+    if field == 'gba':
+        return GBA_FLOOR
     return DG_FLOOR if field == 'dg' else 0.0
 
 
@@ -1430,10 +1437,12 @@ def run_tfield(case, R):
             prof.addSingleCompositionStep(e, b, z0)
     T0 = float(rng.uniform(900, 1300))
     grad = float(rng.choice([-1, 1]) * rng.uniform(2e4, 1.5e5))     # K/m: 40..300 K across the mesh
-    rate = float(rng.choice([0.0, rng.uniform(-1e-3, 1e-3)]))        # K/s
+    dz_est = 2 * zl / (N - 1)
+    tau = 3.0 * 0.4 * dz_est ** 2 / (1e-10 * math.exp(-15000.0 / T0))   # a few stability time steps
+    rate = float(rng.choice([0.0, rng.uniform(-40.0, 40.0)]))        # amplitude (K) of a bounded drift in time
 
     def field(z, t):
-        return T0 + grad * np.asarray(z) + rate * t
+        return T0 + grad * np.asarray(z) + rate * (1.0 - math.exp(-max(float(t), 0.0) / tau))
     stub = _FieldStub(ne)
     if rng.random() < 0.5:
         m = SinglePhaseModel([-zl, zl], N, els, ['FCC_A1'], thermodynamics=stub, compositionProfile=prof,
@@ -1527,10 +1536,10 @@ def run_tfield(case, R):
             m.solve(float(dt) * float(rng.uniform(1.2, 2.5)), solverType=it)
             tnow = float(m.t)
         elif rate != 0.0 and rng.random() < 0.5:
-            tnow += float(rng.uniform(10, 1000))
+            tnow += float(rng.uniform(0.2, 2.0)) * tau
     R.observe('cache_hits', st['hits'])
     R.info.update({'nodes': N, 'elements': ne, 'profile': ptype, 'identical_neighbour_pairs': st['runs'], 'off_phases': st['off'],
-                   'gradient_K_per_m': grad, 'rate_K_per_s': rate})
+                   'gradient_K_per_m': grad, 'drift_amplitude_K': rate})
     R.set_nontrivial(st['runs'] >= 1 and st['off'] >= 1)
 
 
